@@ -40,11 +40,11 @@ UNITS2 = {
     'MlogSeq': (os.path.join(vlib.REPO, 'librfn/mlog.c'), ['vmlog', 'vmlog_nice', 'mlog_clear', 'get_line', 'mlog_get_line', 'mlog_dump'], 3,
                 {'externs': ['strdup_printf', 'fprintf'], 'inmem': ['_IO_FILE']}),
     # list.c: every structure (list_t, list_node_t, list_iterator_t) lives in the byte memory and is reached through pointer values;
-    # the comparison callback of list_insert_sorted is the environment; the walks are unrolled 3 times
+    # the comparison callback of list_insert_sorted is a pure function (a function-valued parameter); the walks are recursive definitions
     'ListSeq': (os.path.join(vlib.REPO, 'librfn/list.c'),
                 ['list_insert', 'list_push', 'list_extract', 'list_iterate', 'list_iterator_next', 'list_iterator_insert',
                  'list_iterator_remove', 'list_contains', 'list_remove', 'list_insert_sorted'], 3,
-                {'inmem': ['list_node', 'list_node_t', 'list_t', 'list_iterator_t'], 'recursive_loops': True, 'optional': ['list_insert_sorted']}),
+                {'inmem': ['list_node', 'list_node_t', 'list_t', 'list_iterator_t'], 'recursive_loops': True, 'pure_calls': ['nodecmp']}),
     # one iteration of the POSIX main loop; the clock, the scheduling pass and the sleep are the environment
     'MainLoopSeq': (os.path.join(vlib.VERIF, 'harness/wrap_mainloop.c'), ['fibre_scheduler_main_loop'], 1,
                     {'externs': ['time_now', 'fibre_scheduler_next', 'usleep'], 'flags': ['-I' + vlib.REPO]}),
@@ -58,7 +58,7 @@ def regen(units):
             if u in UNITS2:
                 path, fns, fuel = UNITS2[u][:3]
                 opt = UNITS2[u][3] if len(UNITS2[u]) > 3 else {}
-                text = c2lean2.generate(path, fns, 'Librfn.Gen.' + u, INC + opt.get('flags', []), fuel=fuel, externs=opt.get('externs', ()), inmem=opt.get('inmem', ()), recursive_loops=opt.get('recursive_loops', False), optional=opt.get('optional', ()))
+                text = c2lean2.generate(path, fns, 'Librfn.Gen.' + u, INC + opt.get('flags', []), fuel=fuel, externs=opt.get('externs', ()), inmem=opt.get('inmem', ()), recursive_loops=opt.get('recursive_loops', False), optional=opt.get('optional', ()), pure_calls=opt.get('pure_calls', ()))
             else:
                 path, fns = UNITS[u]
                 text = c2lean.generate(path, fns, 'Librfn.Gen.' + u, INC)
